@@ -60,6 +60,10 @@ pub fn install_panic_hook() {
 			.location()
 			.map(|l| format!("{}", l.file()))
 			.unwrap_or_default();
+		if std::env::var("KV_PANIC_TRACE").is_ok() {
+			// triage aid: where did the real code (or the harness) panic
+			eprintln!("#PANIC {} @ {:?}", msg, info.location());
+		}
 		LAST_PANIC.with(|p| *p.borrow_mut() = format!("{} @ {}", msg, loc));
 	}));
 }
